@@ -139,7 +139,6 @@ theorem namesTexts_spec (n : Nat) (names : Option (List PyStr)) :
 /-- `visualize_graph`: the returned string, read back, is a well-formed `svg` document that contains exactly the
     node shapes, edge paths and names the specification expects. -/
 theorem visualizeGraph_docMeets (ν : Nums) (a : GraphArgs) (d : Drawing) (hν : SafeNums ν) (hsort : SortOk ν)
-    (hnc : SafeStr a.nodeColor) (hec : ∀ c, a.edgeColor = some c → SafeStr c) (hlc : SafeLabelColors a.labelColors)
     (hp : ProbsOk a.probs)
     (hnd : truthy a.width = true ∨ truthy a.height = true) (hs : a.lay.scale ≠ 0)
     (hidx : ∀ e ∈ a.entries, e.1 < a.pos.length ∧ e.2.1 < a.pos.length)
@@ -164,13 +163,12 @@ theorem visualizeGraph_docMeets (ν : Nums) (a : GraphArgs) (d : Drawing) (hν :
   · simp at h
   rename_i text htext
   rw [writeFile_svg h]
-  have hcs := getNodeColors_safe hν hnc hlc hcolors
-  obtain ⟨he1, he2⟩ := graphEdgeParts_inner hν a pos hec hlc hedges
+  have he2 := graphEdgeParts_inner hν a pos hedges
   have hI : Inner (edges.2 ++ (nodes ++ text)) :=
-    Inner.append he2 (Inner.append (graphNodes_inner hν _ _ _ hcs hnodes) (namesText_inner hν _ _ _ _ htext))
+    Inner.append he2 (Inner.append (graphNodes_inner hν _ _ _ _ hnodes) (namesText_inner hν _ _ _ _ htext))
   have hS := Shape.append (graphEdgeParts_shape hsort hedges)
     (Shape.append (graphNodes_shape hp hnodes) (namesText_shape htext))
-  have hdoc := docMeets_svgDoc hν false true edges.1 he1 hI hS
+  have hdoc := docMeets_svgDoc hν false true edges.1 hI hS
   have hcount := graphEdgeCount_eq hpos hnd hs hidx (fun hde => residual_bounds hedges hde)
   have hexp : (⟨(((⟨0, 0, graphEdgeCount a pos, []⟩ : Summary).add
         ((nodesSummary a.probs (a.nodeOrder.getD (List.range (graphN a)))).add
@@ -258,8 +256,7 @@ theorem bigraphEdges_shape {ν : Nums} {a : BigraphArgs} {ps : List Piece} (hsor
 /-- `visualize_bigraph`: the returned string, read back, is a well-formed `svg` document that contains exactly the
     node shapes, edge paths and names the specification expects. -/
 theorem visualizeBigraph_docMeets (ν : Nums) (a : BigraphArgs) (d : Drawing) (hν : SafeNums ν) (hsort : SortOk ν)
-    (hcr : SafeStr a.colorRow) (hcc : SafeStr a.colorCol) (hec : ∀ c, a.edgeColor = some c → SafeStr c)
-    (hlc : SafeLabelColors a.labelColors) (hpr : ProbsOk a.probsRow) (hpc : ProbsOk a.probsCol)
+    (hpr : ProbsOk a.probsRow) (hpc : ProbsOk a.probsCol)
     (h : visualizeBigraph ν a = .ok d) :
     docMeets (render d.svg) (expectedBigraph a) = true := by
   unfold visualizeBigraph at h
@@ -290,16 +287,14 @@ theorem visualizeBigraph_docMeets (ν : Nums) (a : BigraphArgs) (d : Drawing) (h
   · simp at h
   rename_i textCol htc
   rw [writeFile_svg h]
-  have h1 := getNodeColors_safe hν hcr hlc hrow
-  have h2 := getNodeColors_safe hν hcc hlc hcol
   have hI : Inner (edges ++ (nodesRow ++ (nodesCol ++ (textRow ++ textCol)))) :=
-    Inner.append (bigraphEdges_inner hν a hec hlc hedges)
-      (Inner.append (nodeLoop_inner hν _ _ _ h1 hnr) (Inner.append (nodeLoop_inner hν _ _ _ h2 hnc)
+    Inner.append (bigraphEdges_inner hν a hedges)
+      (Inner.append (nodeLoop_inner hν _ _ _ _ hnr) (Inner.append (nodeLoop_inner hν _ _ _ _ hnc)
         (Inner.append (namesText_inner hν _ _ _ _ htr) (namesText_inner hν _ _ _ _ htc))))
   have hS := Shape.append (bigraphEdges_shape hsort hedges)
     (Shape.append (nodeLoop_shape hpr hnr) (Shape.append (nodeLoop_shape hpc hnc)
       (Shape.append (namesText_shape htr) (namesText_shape htc))))
-  have hdoc := docMeets_svgDoc hν true true [] (fun _ hc => by simp at hc) hI hS
+  have hdoc := docMeets_svgDoc hν true true [] hI hS
   simp only [List.flatMap_nil, List.nil_append] at hdoc
   have hes : bigraphEs a = a.entries.filter fun e => e.2.2 ≠ 0 := rfl
   have hexp : expectedBigraph a = ⟨
@@ -336,7 +331,6 @@ theorem writeFile_succeeds (fn : Option PyStr) {doc : List Piece} (hlex : pieces
 
 /-- the document `visualize_graph` hands to `writeFile` -/
 theorem visualizeGraph_struct (ν : Nums) (a : GraphArgs) (d : Drawing) (hν : SafeNums ν)
-    (hnc : SafeStr a.nodeColor) (hec : ∀ c, a.edgeColor = some c → SafeStr c) (hlc : SafeLabelColors a.labelColors)
     (h : visualizeGraph ν a = .ok d) :
     ∃ doc, piecesLexOk doc = true ∧ writeFile a.filename doc = .ok d := by
   unfold visualizeGraph at h
@@ -358,16 +352,14 @@ theorem visualizeGraph_struct (ν : Nums) (a : GraphArgs) (d : Drawing) (hν : S
   split at h
   · simp at h
   rename_i text htext
-  have hcs := getNodeColors_safe hν hnc hlc hcolors
-  obtain ⟨he1, he2⟩ := graphEdgeParts_inner hν a pos hec hlc hedges
+  have he2 := graphEdgeParts_inner hν a pos hedges
   have hI : Inner (edges.1.flatMap svgMarker ++ (edges.2 ++ (nodes ++ text))) :=
-    Inner.append (Inner.flatMap_mem _ _ (fun c hc => svgMarker_inner (he1 c hc)))
-      (Inner.append he2 (Inner.append (graphNodes_inner hν _ _ _ hcs hnodes) (namesText_inner hν _ _ _ _ htext)))
+    Inner.append (Inner.flatMap _ _ (fun c => svgMarker_inner c))
+      (Inner.append he2 (Inner.append (graphNodes_inner hν _ _ _ _ hnodes) (namesText_inner hν _ _ _ _ htext)))
   exact ⟨_, svgDoc_lexOk hν false true hI, h⟩
 
 theorem visualizeBigraph_struct (ν : Nums) (a : BigraphArgs) (d : Drawing) (hν : SafeNums ν)
-    (hcr : SafeStr a.colorRow) (hcc : SafeStr a.colorCol) (hec : ∀ c, a.edgeColor = some c → SafeStr c)
-    (hlc : SafeLabelColors a.labelColors) (h : visualizeBigraph ν a = .ok d) :
+    (h : visualizeBigraph ν a = .ok d) :
     ∃ doc, piecesLexOk doc = true ∧ writeFile a.filename doc = .ok d := by
   unfold visualizeBigraph at h
   simp only [bind, Except.bind, pure, Except.pure] at h
@@ -396,16 +388,14 @@ theorem visualizeBigraph_struct (ν : Nums) (a : BigraphArgs) (d : Drawing) (hν
   split at h
   · simp at h
   rename_i textCol htc
-  have h1 := getNodeColors_safe hν hcr hlc hrow
-  have h2 := getNodeColors_safe hν hcc hlc hcol
   have hI : Inner (edges ++ (nodesRow ++ (nodesCol ++ (textRow ++ textCol)))) :=
-    Inner.append (bigraphEdges_inner hν a hec hlc hedges)
-      (Inner.append (nodeLoop_inner hν _ _ _ h1 hnr) (Inner.append (nodeLoop_inner hν _ _ _ h2 hnc)
+    Inner.append (bigraphEdges_inner hν a hedges)
+      (Inner.append (nodeLoop_inner hν _ _ _ _ hnr) (Inner.append (nodeLoop_inner hν _ _ _ _ hnc)
         (Inner.append (namesText_inner hν _ _ _ _ htr) (namesText_inner hν _ _ _ _ htc))))
   exact ⟨_, svgDoc_lexOk hν true true hI, h⟩
 
 theorem visualizeDendrogram_struct (ν : Nums) (a : DendroArgs) (d : Drawing) (hν : SafeNums ν)
-    (hcol : SafeStr a.color) (hcols : AllSafe a.colors) (h : visualizeDendrogram ν a = .ok d) :
+    (h : visualizeDendrogram ν a = .ok d) :
     ∃ doc, piecesLexOk doc = true ∧ writeFile a.filename doc = .ok d := by
   unfold visualizeDendrogram at h
   simp only [bind, Except.bind] at h
@@ -414,7 +404,7 @@ theorem visualizeDendrogram_struct (ν : Nums) (a : DendroArgs) (d : Drawing) (h
   rename_i svg hsvg
   obtain ⟨cut, index, text, paths, _, _, _, htext, hpaths, rfl⟩ := svgDendrogram_ok hsvg
   have hI : Inner (text ++ paths) := Inner.append (dendroNames_inner hν a index htext)
-    (dendroTree_inner hν a hcol hcols cut index hpaths)
+    (dendroTree_inner hν a cut index hpaths)
   exact ⟨_, svgDoc_lexOk hν true false hI, h⟩
 
 end SkNet.Svg
